@@ -109,10 +109,34 @@ func implCompress(f []string, o *oracleSink) string {
 		buf[k] = 0xA5
 	}
 	dst := buf[:dl]
+	// the destination is dirty (a reused buffer): the result must not depend on its prior contents
+	copy(dst, fill(dl, 77))
+	for k := range dst {
+		dst[k] |= 0x0F
+	}
 	return safe(func() string {
 		var n int
 		var err error
 		switch {
+		case strings.HasPrefix(api, "hist:"):
+			// a compressor object whose earlier calls were `hist:<dl>:<src>[:<dl>:<src>…]` (each may have
+			// failed on a short destination): the result must not depend on that history
+			h := strings.Split(api, ":")[1:]
+			var fc lz4.Compressor
+			hcc := lz4.CompressorHC{Level: lz4.CompressionLevel(uint32(depth))}
+			for k := 0; k+1 < len(h); k += 2 {
+				pd, ps := make([]byte, atoi(h[k])), unhx(h[k+1])
+				if hc {
+					_, _ = hcc.CompressBlock(ps, pd)
+				} else {
+					_, _ = fc.CompressBlock(ps, pd)
+				}
+			}
+			if hc {
+				n, err = hcc.CompressBlock(src, dst)
+			} else {
+				n, err = fc.CompressBlock(src, dst)
+			}
 		case !hc && api == "obj":
 			n, err = fastObj.CompressBlock(src, dst)
 		case !hc:
